@@ -9,6 +9,7 @@ with values (`Buildable`) and every probe key / prefix.
 import LinVerif.Lemmas.C20Get
 import LinVerif.Lemmas.C20SeekList
 import LinVerif.Lemmas.C20Merge
+import LinVerif.Lemmas.C20Blocks
 import LinVerif.Lemmas.C20Bits
 import LinVerif.Lemmas.C20Louds
 import LinVerif.Lemmas.C20LoudsGet
@@ -235,6 +236,63 @@ theorem bucket_write_eq_sorted {bs : Nat} (hbs : 1 ≤ bs) {kvs : List KV} (hd :
     (hb : bytesOK kvs = true) (hE : (∀ v, ([], v) ∉ kvs) ∨ (2 ≤ bs ∧ 2 ≤ kvs.length)) :
     ∃ r, buildAll (writeBlocks bs kvs) = some r ∧ (∀ t ∈ r, Built t) ∧ r.flatMap iter = sortKVs kvs :=
   builder_write_spec hbs hd ((bytesOK_iff kvs).1 hb) hE
+
+/-- **the blocks partition the key list, for every size** (round 12). `TrieBucketBuilder.Write` as the
+Go code computes it — `numBlocks` from `len/blockSize` and `len%blockSize`, then the slices
+`kvs.Keys[i*blockSize : min(i*blockSize+blockSize, len)]` (`writeBlocksGo`: `numBlocksGo`, `blockBounds`,
+`goSlice`, `blocksLoop`) — for EVERY key count and EVERY block size ≥ 1: no slice expression panics, the
+blocks concatenated are exactly the sorted pairs (nothing dropped, nothing twice), there are
+`⌈len/blockSize⌉` of them, none is empty or longer than `blockSize`, and every block but the last is full.
+They are the `take`/`drop` blocks `writeBlocks` that the other bucket theorems are stated on. -/
+theorem builder_blocks_partition {bs : Nat} (hbs : 1 ≤ bs) (kvs : List KV) :
+    ∃ blocks, writeBlocksGo bs kvs = some blocks ∧ blocks = writeBlocks bs kvs ∧
+      blocks.flatten = sortKVs kvs ∧
+      blocks.length = numBlocksGo kvs.length bs ∧
+      (∀ b ∈ blocks, b ≠ [] ∧ b.length ≤ bs) ∧ (∀ b ∈ blocks.dropLast, b.length = bs) := by
+  have hlen : (sortKVs kvs).length = kvs.length := (sortKVs_perm kvs).length_eq
+  refine ⟨writeBlocks bs kvs, writeBlocksGo_eq bs hbs kvs, rfl, ?_, ?_, ?_, ?_⟩
+  · unfold writeBlocks
+    exact chunks_flatten bs hbs _ _ (by rw [hlen]; exact Nat.le_refl _)
+  · unfold writeBlocks
+    rw [chunks_length bs hbs _ _ (by rw [hlen]; exact Nat.le_refl _), hlen]
+  · intro b hb
+    unfold writeBlocks at hb
+    exact ⟨(chunks_mem bs hbs _ _ b hb).1, chunks_length_le bs _ _ b hb⟩
+  · intro b hb
+    unfold writeBlocks at hb
+    exact chunks_dropLast_full bs hbs _ _ b hb
+
+/-- the loop of `TrieBucketBuilder.Write` at any block index: started at block `i` with the count of
+what is left, it walks exactly the blocks of the rest (the invariant behind `builder_blocks_partition`) -/
+theorem builder_loop_invariant {bs : Nat} (hbs : 1 ≤ bs) (s : List KV) (i : Nat) (hi : i * bs ≤ s.length) :
+    blocksLoop bs s (numBlocksGo (s.length - i * bs) bs) i = some (chunks bs s.length (s.drop (i * bs))) :=
+  blocksLoop_eq_chunks bs hbs s s.length i hi (Nat.sub_le _ _)
+
+/-- `TrieBucketBuilder.Write` end to end on the code's own arithmetic: the tries built from the blocks
+the Go loop slices out hold exactly the sorted pairs (with `bucket_write_eq_sorted`) -/
+theorem builder_write_go_eq_sorted {bs : Nat} (hbs : 1 ≤ bs) {kvs : List KV} (hd : DistinctKeys kvs)
+    (hb : bytesOK kvs = true) (hE : (∀ v, ([], v) ∉ kvs) ∨ (2 ≤ bs ∧ 2 ≤ kvs.length)) :
+    ∃ blocks r, writeBlocksGo bs kvs = some blocks ∧ buildAll blocks = some r ∧ (∀ t ∈ r, Built t) ∧
+      r.flatMap iter = sortKVs kvs := by
+  obtain ⟨r, h1, h2, h3⟩ := bucket_write_eq_sorted hbs hd hb hE
+  exact ⟨_, r, writeBlocksGo_eq bs hbs kvs, h1, h2, h3⟩
+
+/-- `blockSize = 0`: `len(keys) / b.blockSize` is an integer division by zero — the model answers
+`none` (panic), never a default. No production caller passes 0 (the merger's `model.NewTrieBucket()` uses
+`math.MaxUint16`, the index flusher a positive constant), so it is outside `builder_blocks_partition`. -/
+theorem builder_blockSize_zero_panics (kvs : List KV) : writeBlocksGo 0 kvs = none := by
+  simp [writeBlocksGo]
+
+/-- non-vacuity at the sizes a "fold the small remainder" rewrite disagrees on: 9 keys, blockSize 8
+(remainder = blockSize/8): a full block and a block of one; 17 keys: 8 + 8 + 1; 16 keys: no third block -/
+example : blocksLoop 8 ((List.range 9).map (fun i => ([i], i))) (numBlocksGo 9 8) 0 =
+    some [(List.range 8).map (fun i => ([i], i)), [([8], 8)]] := by decide
+example : (blocksLoop 8 ((List.range 17).map (fun i => ([i], i))) (numBlocksGo 17 8) 0).map (·.map List.length) =
+    some [8, 8, 1] := by decide
+example : (blocksLoop 8 ((List.range 16).map (fun i => ([i], i))) (numBlocksGo 16 8) 0).map (·.map List.length) =
+    some [8, 8] := by decide
+example : numBlocksGo 72 64 = 2 ∧ blockBounds 72 64 1 = (64, 72) ∧ numBlocksGo 128 64 = 2 ∧
+    blockBounds 128 64 1 = (64, 128) := by decide
 
 /-- **merge = rebuild from the union**: `TrieBucket.Write` (index/v1 `indexKVMerger.Merge`) on
 built tries with pairwise distinct keys yields built tries holding a permutation of all pairs … -/
@@ -938,6 +996,19 @@ theorem gen_bucket_write_calls : Generated.C20.bucketWriteCalls =
 theorem gen_bucket_builder_calls : Generated.C20.bucketBuilderWriteCalls =
     ["sort.Sort", "len", "len", "len", "len", "builder.Reset", "builder.Build", "builder.MarshalSize", "uint32",
      "LittleEndian.PutUint32", "writer.Write", "builder.Write"] := rfl
+
+/-- the whole body of `TrieBucketBuilder.Write`, statement by statement: the block count
+(`numBlocksGo`), the bounds of block `i` (`blockBounds`), the slices handed to `Build` (`goSlice`), the loop
+(`blocksLoop`). A change of the count, of a bound or of the clamp re-opens this obligation (and the model
+must be re-read against the new text). -/
+theorem gen_bucket_builder_write_body : Generated.C20.bucketBuilderWriteStmts =
+    ["kvs := &KVs{Keys: keys, IDs: ids}", "sort.Sort(kvs)",
+     "numBlocks := len(keys) / b.blockSize", "if len(keys)%b.blockSize != 0 {", "numBlocks++", "}",
+     "for i := 0; i < numBlocks; i++ {",
+     "start := i * b.blockSize", "end := start + b.blockSize", "if end > len(keys) {", "end = len(keys)", "}",
+     "b.builder.Reset()", "b.builder.Build(kvs.Keys[start:end], kvs.IDs[start:end])",
+     "size := b.builder.MarshalSize()", "binary.LittleEndian.PutUint32(b.sizeBuf[0:4], uint32(size))",
+     "if err != nil {", "return err", "}", "if err != nil {", "return err", "}", "}", "return nil"] := rfl
 
 /-- `indexKVMerger.Merge`: unmarshal every block into one bucket, then `TrieBucket.Write` -/
 theorem gen_merger_calls : Generated.C20.mergerCalls =
